@@ -1,4 +1,5 @@
 import TpmProofs.Trace
+import TpmProofs.Props.MsgWF
 /-!
 # C09 — a command/response stream decodes as its messages decoded one by one
 -/
